@@ -1,4 +1,4 @@
-import glob, json, os, re
+import glob, hashlib, json, os, re
 
 
 def _kv(tokens, key):
@@ -86,7 +86,8 @@ def custom(vc, spec, tier, seed, replay):
     complete = {"set": 0, "empty": 0}
     incomplete = 0
     paths = set()
-    for trf in glob.glob(os.path.join(vc.CACHE, "run", spec["property"], "s*.tr")):
+    wd = spec["property"] + ("" if vc.REPO == "/repo" else "-" + hashlib.sha1(vc.REPO.encode()).hexdigest()[:10])
+    for trf in glob.glob(os.path.join(vc.CACHE, "run", wd, "s*.tr")):   # this run's transcripts (same naming as vcheck's workdir)
         for c in vc.parse_cases(open(trf).read()):
             cfg, per, nd, ne, nds = _case_summary(c)
             need = NEED_EMPTY if cfg == "" else NEED_SET
